@@ -1556,7 +1556,12 @@ class XMLOutputFormattingWrapper:
         reportsDir.mkdir(exist_ok=True)
 
         for name, suite in self._testSuites.items():
-            filename = reportsDir / f'{name}.xml'
+            # The suite name is the file name.  Doctest names may hold
+            # anything, also path separators: write them as %XX.
+            stem = name.replace('%', '%25')
+            for sep in {os.sep, os.altsep or os.sep}:
+                stem = stem.replace(sep, f'%{ord(sep):02X}')
+            filename = reportsDir / f'{stem}.xml'
 
             testSuiteNode = ElementTree.Element('testsuite')
 
